@@ -249,6 +249,19 @@ def _fresh(ctx, fn: FunctionInfo, e: ast.AST, use: ast.AST, depth: int = 0, trai
                     return v_
     if isinstance(e, ast.Constant):
         return "literal", trail + [f"{fn.qualname}: literal {e.value!r}"]
+    # an element of a collection of names that are already in the graph: X[0] / next(iter(X)) with X a comprehension
+    # over the block table, or the key / name of a block looked up in it
+    src = None
+    if isinstance(e, ast.Subscript) and isinstance(e.value, ast.Name):
+        src = e.value
+    elif isinstance(e, ast.Call) and isinstance(e.func, ast.Name) and e.func.id == "next" and e.args and isinstance(e.args[0], ast.Call) and isinstance(e.args[0].func, ast.Name) and e.args[0].func.id == "iter" and e.args[0].args and isinstance(e.args[0].args[0], ast.Name):
+        src = e.args[0].args[0]
+    if src is not None:
+        vals = [d.stmt.value for d in cfg.reaching_defs(use, src.id) if d.stmt is not None and isinstance(d.stmt, ast.Assign)]
+        if vals and all(isinstance(v, (ast.ListComp, ast.SetComp, ast.GeneratorExp)) and any(".graph" in A.unparse(g.iter) or A.unparse(g.iter) in ("self", "self.keys()") for g in v.generators) for v in vals):
+            return "existing", trail + [f"{fn.qualname}: {A.unparse(e)[:40]} is an element of {A.unparse(vals[0])[:60]} (names of blocks that are in the graph)"]
+    if isinstance(e, ast.Attribute) and e.attr == "name" and depth < 5:
+        return "existing", trail + [f"{fn.qualname}: {A.unparse(e)[:40]} is the name of an existing block"]
     if isinstance(e, ast.JoinedStr) or isinstance(e, ast.BinOp):
         return "literal", trail + [f"{fn.qualname}: built string {A.unparse(e)[:40]}"]
     if isinstance(e, ast.Call) and isinstance(e.func, ast.Attribute) and e.func.attr in ("replace", "format", "join", "removeprefix", "removesuffix", "strip", "lstrip", "rstrip", "lower", "upper", "zfill", "ljust", "rjust", "translate", "format_map"):
